@@ -915,6 +915,10 @@ class Gen:
         self._in_helper = False
         if ret is not None:
             body.append({"s": "return", "e": self.expr(fenv, ret, 2)})
+        elif not self.o.get("helper_ret_nested", True):
+            # the lowerer moves the implicit return of a void function into the arms of a trailing if/switch:
+            # an explicit `return;` keeps it at the end
+            body.append({"s": "return", "e": None})
         self._note_locals(name, body)
         self.funcs.append({"n": name, "params": params, "ret": ret, "body": body})
         env[name] = (ret, "fn")
